@@ -321,18 +321,19 @@ example : (balanced bytesCodec false 2 (chunk 2 [1, 2, 3, 4, 5, 6, 7, 8, 9])).no
 
 /-- Closure: the stream handed to the DAG service contains the root and, with a block, every block it links
     to; and nothing else than the blocks reachable from the root - except, for a lone file or symlink added
-    without wrapping, the MFS directory that holds it under its CID (`scaffold`). -/
+    without wrapping, the MFS directory that holds it under its CID (`scaffold`), and the empty directory node
+    that `mfs.Mkdir` adds for every directory below the top level. -/
 theorem closure (nameOf : UNode (List β) → String) (p : Params) (hW : 2 ≤ p.width) (top : List (String × Entry β))
     (r : UNode (List β)) (hr : importRoot p top = some r) :
     r ∈ emitStream nameOf p top ∧
     (∀ b ∈ emitStream nameOf p top, ∀ c ∈ b.links, c ∈ emitStream nameOf p top) ∧
     (∀ b, Reach r b → b ∈ emitStream nameOf p top) ∧
-    (∀ b ∈ emitStream nameOf p top, Reach r b ∨ b ∈ scaffold nameOf r) := by
+    (∀ b ∈ emitStream nameOf p top, Reach r b ∨ b ∈ scaffold nameOf r ∨ b = .dir []) := by
   have hm := emitStream_mem nameOf p hW top r hr
-  refine ⟨(hm r).mpr (Or.inl (UNode.mem_blocks_self r)), ?_, fun b hb => (hm b).mpr (Or.inl (reach_blocks r b hb)), ?_⟩
+  refine ⟨(hm r).2 (Or.inl (UNode.mem_blocks_self r)), ?_, fun b hb => (hm b).2 (Or.inl (reach_blocks r b hb)), ?_⟩
   · intro b hb c hc
-    rcases (hm b).mp hb with h | h
-    · exact (hm c).mpr (Or.inl (blocks_closed r b c h hc))
+    rcases (hm b).1 hb with h | h | h
+    · exact (hm c).2 (Or.inl (blocks_closed r b c h hc))
     · unfold scaffold at h
       split_ifs at h
       · simp at h
@@ -340,11 +341,14 @@ theorem closure (nameOf : UNode (List β) → String) (p : Params) (hW : 2 ≤ p
         subst h
         simp only [UNode.links, List.map_cons, List.map_nil, List.mem_singleton] at hc
         rw [hc]
-        exact (hm _).mpr (Or.inl (UNode.mem_blocks_self r))
+        exact (hm _).2 (Or.inl (UNode.mem_blocks_self r))
+    · subst h
+      simp [UNode.links] at hc
   · intro b hb
-    rcases (hm b).mp hb with h | h
+    rcases (hm b).1 hb with h | h | h
     · exact Or.inl (blocks_reach r b h)
-    · exact Or.inr h
+    · exact Or.inr (Or.inl h)
+    · exact Or.inr (Or.inr h)
 
 /-- The same block is offered to `Add` several times (file roots re-added by MFS, the root by `PinRoot`,
     equal chunks, equal files). Whatever the CID function, the seen-set of the sharding DAG service keeps each
@@ -434,8 +438,8 @@ def exTree : List (String × Entry Nat) :=
 
 /-- a tree with a hidden entry, a symlink, an empty directory and a three-chunk file: the hypotheses are met -/
 example : (importRoot ({ chunkSize := 2, width := 2 } : Params) exTree).isSome = true ∧
-    (emitStream (fun _ => "x") ({ chunkSize := 2, width := 2 } : Params) exTree).length = 12 ∧
-    (emitStream (fun _ => "x") ({ chunkSize := 2, width := 2, hidden := true } : Params) exTree).length = 14 := by decide
+    (emitStream (fun _ => "x") ({ chunkSize := 2, width := 2 } : Params) exTree).length = 13 ∧
+    (emitStream (fun _ => "x") ({ chunkSize := 2, width := 2, hidden := true } : Params) exTree).length = 15 := by decide
 
 end Imp
 
